@@ -675,6 +675,7 @@ def run(tier):
     res.stats["counter_write_sites"] = n_w
     rule_R1w(res, prog)
     rule_R5(res, prog)
+    rule_R6(res, prog)
     return res.finish()
 
 
@@ -980,3 +981,100 @@ def rule_R5(res, prog):
                                          file=fn.relfile, line=ln)
                         res.instance(rid, "%s:%s HRR restart clears tls13ClientEarlyDataEnabled" % (fn.name, ln), esc is None, finding=f_)
     res.floor(rid, 1)
+
+
+def rule_R6(res, prog):
+    """Fresh server random (the key block of a resumed session depends only on the cached master secret and the two
+    randoms): writeServerHello reaches the point where the ServerHello is written without having drawn a new random
+    only on paths with `DTLS and ssl->retransmit == 1` (an identical retransmission).  Skipping it for any other reason
+    makes a replayed resumption derive the same keys - and seal different records under the same key and nonce."""
+    rid = "C17.R6"
+    res.rule(rid, "writeServerHello draws a fresh server random on every path except a DTLS retransmission")
+    fn = prog.fn("writeServerHello")
+    dtls_mask = prog.enums.get("v_dtls_any") or 0
+
+    def gen(x):
+        return any(m.get("k") == "call" and m.get("fn") in ("psGenerateServerRandom",) for m in walk(x)) or \
+            any(m.get("k") == "call" and m.get("fn") == "psGetPrngLocked" and m.get("a") and
+                any(q.get("k") == "mem" and q.get("f") == "serverRandom" for q in walk(m["a"][0])) for m in walk(x))
+
+    def use(x):
+        return any(m.get("k") == "call" and m.get("fn") in ("writeRecordHeader", "matrixRegisterSession") for m in walk(x))
+
+    def is_dtls(nd):
+        nd = strip(nd)
+        if nd is None or nd.get("k") != "bin" or nd["op"] != "&":
+            return False
+        l, r = strip(nd["l"]), strip(nd["r"])
+        return l is not None and l.get("k") == "mem" and l.get("f") == "activeVersion" and r is not None and r.get("k") == "int" \
+            and (r["v"] & dtls_mask) and not (r["v"] & ~dtls_mask)
+    seen = set()
+    stack = [(fn.entry, (), None, None, False, [])]
+    bad = None
+    nuse = 0
+    while stack and bad is None:
+        bid, consts, dtls, retr, drawn, path = stack.pop()
+        key = (bid, consts, dtls, retr, drawn)
+        if key in seen:
+            continue
+        seen.add(key)
+        b = fn.bmap[bid]
+        cd = dict(consts)
+        stop = False
+        for i, ln, x in cu.block_exprs(b):
+            if i == "c":
+                break
+            for m in walk(x):
+                if m.get("k") == "bin" and m["op"] == "=" and (strip(m["l"]) or {}).get("k") == "var" and "id" in strip(m["l"]):
+                    r_ = strip(m["r"])
+                    if r_ is not None and r_.get("k") == "int":
+                        cd[strip(m["l"])["id"]] = r_["v"]
+                    else:
+                        cd.pop(strip(m["l"])["id"], None)
+            if gen(x):
+                drawn = True
+            if use(x):
+                nuse += 1
+                if not drawn and not (dtls is True and retr is True):
+                    bad = (ln, path, dtls, retr)
+                stop = True
+                break
+            if x.get("k") == "ret":
+                stop = True
+                break
+        if stop or bad:
+            continue
+        t = b.get("term")
+        for k, sc in enumerate(b["succ"]):
+            if sc.get("b") is None:
+                continue
+            d2, r2, dr2 = dtls, retr, drawn
+            skip = False
+            if t is not None and "c" in t and len(b["succ"]) == 2:
+                if gen(t["c"]):
+                    dr2 = True
+                for (txt, tr, nd) in cu._cond_atoms(t["c"], k == 0):
+                    nd0 = strip(nd)
+                    if is_dtls(nd0):
+                        if d2 is not None and d2 != tr:
+                            skip = True
+                        d2 = tr
+                    if txt == "(ssl->retransmit == 1)":
+                        if r2 is not None and r2 != tr:
+                            skip = True
+                        r2 = tr
+                    if nd0 is not None and nd0.get("k") == "var" and nd0.get("id") in cd and bool(cd[nd0["id"]]) != tr:
+                        skip = True
+            if skip:
+                continue
+            stack.append((sc["b"], tuple(sorted(cd.items())), d2, r2, dr2, (path + [t.get("ln") if t else None])[-6:]))
+    f_ = None
+    if bad is not None:
+        f_ = Finding(PROP, rid, fn.name, "ServerHello written with the previous server random",
+                     "%s:%s writeServerHello(): the ServerHello is written (line %s, via lines %s) on a path that neither drew a server random nor "
+                     "is a DTLS retransmission (DTLS: %s, ssl->retransmit == 1: %s): the random of an earlier message (or all zeros) goes "
+                     "out, and a replayed resumption derives the same key block and reuses its nonces" % (fn.relfile, bad[0], bad[0], bad[1], bad[2], bad[3]),
+                     file=fn.relfile, line=bad[0])
+    res.instance(rid, "writeServerHello: a fresh random precedes the message on every non-retransmission path (%d path states)" % nuse, bad is None, finding=f_)
+    if nuse == 0:
+        raise AnalysisBroken("C17.R6: no writeRecordHeader / matrixRegisterSession reached in writeServerHello")
